@@ -2,3 +2,6 @@
 //! Add one line per property cluster:   #[path = "daemon_config_server_<cluster>.rs"] mod <cluster>;
 //! Each sub-module has its own `#[test] fn entry()` selected by VERIF_STREAM and reaches the private
 //! items of the module the hook sits in through `super::super::*`.
+
+#[path = "daemon_config_server_filt.rs"]
+mod filt;
